@@ -341,10 +341,11 @@ Proof.
   assert (Hf : forall m : wmsg, (exists b, w_enc m = MOk b /\ len32 b) -> fits wU false w_cenc m).
   { intros m (b & Hb & Hl) b' Hb'. unfold w_enc in Hb. rewrite Hb in Hb'. injection Hb' as <-. exact Hl. }
   split; [|split; [|reflexivity]].
-  - cbn. repeat split; apply C12_ex_NodeState.
+  - cbn [ex_nested ty_msg ty_perr ty_ns_opt]. split; [apply C12_ex_NodeState|exact I].
   - cbn [ex_nested valid_msg valid_perr valid_ns_opt]. pose proof C12_ex_NodeState as [_ Hn].
-    repeat split; try (vm_compute; reflexivity); try exact Hn.
-    + apply Hf. eexists. split; [vm_compute; reflexivity|vm_compute; reflexivity].
+    split; [vm_compute; reflexivity|]. split; [|split; [|exact I]].
+    + split; [vm_compute; reflexivity|]. split; [split; [exact Hn|vm_compute; reflexivity]|].
+      apply Hf. eexists. split; [vm_compute; reflexivity|vm_compute; reflexivity].
     + apply Hf. eexists. split; [vm_compute; reflexivity|vm_compute; reflexivity].
 Qed.
 Example C12_ex_kref : valid_kref w_newref (RRef [104; 58; 49] [47; 97]).
